@@ -21,12 +21,31 @@
 import PdshVerif.Relay.TailLemmas
 import PdshVerif.Relay.Interleave
 import PdshVerif.Relay.Simulation
+import PdshVerif.Relay.DomIff
 
 namespace PdshVerif.C05
 open PdshVerif.Relay
 
 /-- all bytes written, in call order -/
 def written (ems : List Em) : Bytes := (ems.map Em.bytes).flatten
+
+/-- the decidable domain predicate `Dom05` says what the property says: no NUL byte; every line
+    (its newline included) and the final unterminated fragment at most 128 KiB long; (standard
+    output, `m = some marker`) no line contains the return-code marker -/
+theorem dom_in_words (m : Option Bytes) (s : Bytes) :
+    Spec.Dom05 m s = true ↔
+      (∀ b ∈ s, b ≠ 0) ∧ (∀ l ∈ Spec.lines s, l.length ≤ 131072) ∧ (Spec.tail s).length ≤ 131072 ∧
+      (∀ mk, m = some mk → ∀ l ∈ Spec.lines s, Spec.occurs mk l = false) := by
+  unfold Spec.Dom05
+  simp only [Bool.and_eq_true, List.all_eq_true, decide_eq_true_eq, Spec.runsWithin_iff, Spec.maxLine]
+  cases m with
+  | none =>
+    simp only [and_true, reduceCtorEq, false_imp_iff, implies_true]
+  | some mk =>
+    simp only [Option.some.injEq, forall_eq', List.all_eq_true, Bool.not_eq_true']
+    constructor
+    · rintro ⟨⟨h1, h2, h3⟩, h4⟩; exact ⟨fun b hb => by simpa using h1 b hb, h2, h3, h4⟩
+    · rintro ⟨h1, h2, h3, h4⟩; exact ⟨⟨fun b hb => by simpa using h1 b hb, h2, h3⟩, h4⟩
 
 /-- THE KEY INVARIANT.  A relay buffer between handler calls holds no complete line
     (`RunInv`: it holds the unterminated rest `(split x).2` of what was read), hence -- in the
